@@ -763,7 +763,7 @@ impl SubRule {
                         MatchElement::Segment(i, _) => {
                             pos = i;
                             // remove segment                             
-                            if res_word.syllables.len() <= 1 && word.syllables[i.syll_index].segments.len() <= 1 {
+                            if res_word.syllables.len() <= 1 && res_word.syllables[i.syll_index].segments.len() <= 1 {
                                 return Err(RuleRuntimeError::DeletionOnlySeg)
                             }
                             res_word.syllables[i.syll_index].segments.remove(i.seg_index);
@@ -2045,7 +2045,7 @@ impl SubRule {
                         pos = sp;
                         debug_assert!(res_word.in_bounds(sp));
                         // remove segment                             
-                        if res_word.syllables.len() <= 1 && word.syllables[sp.syll_index].segments.len() <= 1 {
+                        if res_word.syllables.len() <= 1 && res_word.syllables[sp.syll_index].segments.len() <= 1 {
                             return Err(RuleRuntimeError::DeletionOnlySeg)
                         }
                         res_word.syllables[sp.syll_index].segments.remove(sp.seg_index);
